@@ -213,6 +213,10 @@ type World struct {
 	GateScalars bool
 	// NoCtx counts callbacks that were invoked without the request's context.
 	NoCtx atomic.Int64
+	// WithD: the schema's explicit type list includes D, an implementer of Node
+	// that no field references (see Retyped).
+	WithD bool
+	cfg   graphql.SchemaConfig
 }
 
 // internal enum values are deliberately not the names
@@ -426,6 +430,14 @@ func NewWorld(id string, exts ...graphql.Extension) *World {
 		fs["solo"] = &graphql.Field{Type: w.Solo}
 		return fs
 	})
+	// D implements Node but no field refers to it: it belongs to a schema only
+	// through the explicit type list (World.Retyped), and only then is it a
+	// possible type of Node
+	mkObj("D", nodeIf, true, func() graphql.Fields {
+		fs := nodeFields()
+		fs["dOnly"] = &graphql.Field{Type: graphql.String}
+		return fs
+	})
 	w.U = graphql.NewUnion(graphql.UnionConfig{
 		Name:  "U",
 		Types: []*graphql.Object{w.Obj["A"], w.Obj["B"]},
@@ -631,7 +643,30 @@ func NewWorld(id string, exts ...graphql.Extension) *World {
 		panic("world: " + err.Error())
 	}
 	w.Schema = schema
+	w.cfg = cfg
 	return w
+}
+
+// Retyped returns a world around the same root objects, types and callbacks
+// whose schema is a new value built with another explicit type list: D, an
+// implementer of Node that is reachable through that list only, is added (or
+// dropped again). A value resolving to D is a possible type of Node in the one
+// schema and an error in the other.
+func (w *World) Retyped() *World {
+	n := &World{ID: w.ID, Obj: w.Obj, Node: w.Node, U: w.U, Solo: w.Solo, Kind: w.Kind, Stamp: w.Stamp, SubSource: w.SubSource,
+		Possible: w.Possible, PanicLiteral: w.PanicLiteral, GateScalars: w.GateScalars, WithD: !w.WithD}
+	cfg := w.cfg
+	cfg.Types = []graphql.Type{w.Obj["A"], w.Obj["B"], w.Obj["C"]}
+	if n.WithD {
+		cfg.Types = append(cfg.Types, w.Obj["D"])
+	}
+	schema, err := graphql.NewSchema(cfg)
+	if err != nil {
+		panic("world (retyped): " + err.Error())
+	}
+	n.Schema = schema
+	n.cfg = cfg
+	return n
 }
 
 // ---------------------------------------------------------------------------
